@@ -16,7 +16,7 @@ import hashlib
 import itertools
 import random
 
-from harness import common, runner, report
+from harness import common, runner, report, peers
 from checks import rating, audit
 
 RSA_FAM = ['ssh-rsa', 'rsa-sha2-256', 'rsa-sha2-512']
@@ -91,6 +91,17 @@ def build(tier, rnd):
     for size in (2048, 3072):
         add(['ssh-rsa', 'rsa-sha2-256', 'rsa-sha2-512', 'ssh-ed25519'], {t: (size, '', 0) for t in RSA_FAM}, 'first-family-probe-fails')
         cases[-1]['server_opts'] = {'mutate': _first_probe_disconnects}
+    # the free-form fields of a certificate (key id, principals, options, extensions) say nothing about its sizes: whatever they hold -
+    # text outside ASCII, bytes that are not UTF-8, nothing, a lot - the key and its CA are measured and rated as for any certificate
+    from harness import wire as _wire
+    ext = _wire.string(b'permit-pty') + _wire.string(b'')
+    for k, kw in enumerate((dict(key_id='h\u00f4te-prod-01'.encode('utf-8')), dict(key_id=b'\xff\xfe\x80id'), dict(key_id=b''), dict(key_id=b'k' * 300),
+                            dict(principals=(b'a.example', b'b.example', 'h\u00f4te.example'.encode('utf-8'))), dict(principals=()),
+                            dict(extensions=ext, options=_wire.string(b'force-command') + _wire.string(_wire.string(b'/bin/true'))))):
+        add(['ssh-rsa-cert-v01@openssh.com', 'ssh-ed25519-cert-v01@openssh.com', 'ssh-ed25519'],
+            {'ssh-rsa-cert-v01@openssh.com': (1024, 'ssh-rsa', 1024), 'ssh-ed25519-cert-v01@openssh.com': (256, 'ssh-rsa', 2048)}, 'certificate-free-form-fields')
+        cases[-1]['raw_hostkeys'] = {'ssh-rsa-cert-v01@openssh.com': peers.cert_blob('rsa', ('rsa', 1024), bits=1024, **kw),
+                                     'ssh-ed25519-cert-v01@openssh.com': peers.cert_blob('ed25519', ('rsa', 2048), **kw)}
     # advertised but never presented: the server closes the probe connection instead of sending the key.  Nothing was measured
     # for that type, so nothing may be reported for it (no size, no CA, no fingerprint); the other types are unaffected.
     for key, hk, held in ((['rsa-sha2-512', 'rsa-sha2-256', 'ssh-ed25519'], {}, RSA_FAM),
